@@ -37,7 +37,13 @@ def judge(doc, fmt, render_kw=None):
     fails = check_sequence(e.body, text)
     leaked = [t for t in e.forbidden if t in text]
     for a, b in sorted(e.hard_sep):
-        if not separated(text, a, b):
+        if prof.get("sep_any"):
+            # plain-text family: the file's own separator characters (comma, quote, bracket ...) are returned verbatim
+            i, j = text.find(a), text.find(b)
+            ok = i < 0 or j < i or j > i + len(a)
+        else:
+            ok = separated(text, a, b)
+        if not ok:
             fails.append(("separation", f"{a} and {b} are separated by a paragraph/cell/break/tab boundary in the source but adjacent in the output"))
             break
     if e.table_only:
@@ -54,25 +60,38 @@ def judge(doc, fmt, render_kw=None):
     return fails
 
 
+def _opt_feats(render_kw):
+    return {"opt." + k for k, v in ((render_kw or {}).get("opts") or {}).items() if v}
+
+
+def _neutralise(doc, render_kw, feature):
+    if feature.startswith("opt."):
+        kw = dict(render_kw or {})
+        kw["opts"] = {k: v for k, v in (kw.get("opts") or {}).items() if k != feature[4:]}
+        return doc, kw
+    return neutral.neutralise(doc, feature), render_kw
+
+
 def evaluate(ctx: Ctx, doc, fmt, part: Partial | None = None, render_kw=None):
     model.validate(doc)
-    feats = model.features(doc)
+    feats = model.features(doc) | _opt_feats(render_kw)
     fails = judge(doc, fmt, render_kw)
     e_body = sum(len(x) for x in model.expect(doc, PROFILES[fmt]).per_unit)
     if part is not None:
         nontrivial = e_body >= 2 and bool(feats - {"run.multi"})
-        part.case(digest([fmt, doc]), nontrivial, sample={"format": fmt, "features": sorted(feats)} if part.evaluations % 53 == 0 else None, fmt=fmt)
+        part.case(digest([fmt, doc, render_kw]), nontrivial, sample={"format": fmt, "features": sorted(feats)} if part.evaluations % 53 == 0 else None, fmt=fmt)
         for f in feats:
             part.hist[f"{fmt}:{f}"] += 1
     if not fails:
         return []
     clauses = {c for c, _ in fails}
-    known = [k for k in ctx.known if k.get("status") == "open" and k.get("format") == fmt and k.get("feature") in feats]
+    known = [k for k in ctx.known if k.get("status") == "open" and k.get("format") == fmt and set(k.get("feature", "").split("+")) <= feats]
     if known:
-        ndoc = doc
+        ndoc, nkw = doc, render_kw
         for k in known:
-            ndoc = neutral.neutralise(ndoc, k["feature"])
-        nfails = judge(ndoc, fmt, render_kw)
+            for f in k["feature"].split("+")[-1:]:  # for combined features the last one is the one neutralised
+                ndoc, nkw = _neutralise(ndoc, nkw, f)
+        nfails = judge(ndoc, fmt, nkw)
         allowed = set().union(*[set(k.get("clauses", [])) for k in known])
         if not nfails and clauses <= allowed:
             if part is not None:
@@ -80,20 +99,28 @@ def evaluate(ctx: Ctx, doc, fmt, part: Partial | None = None, render_kw=None):
                     part.known_hits[k["id"]] += 1
             return []
         if nfails:
-            doc, fails = ndoc, nfails
+            doc, render_kw, fails = ndoc, nkw, nfails
     c, d = fails[0]
-    return [Violation(c, f"C02:{fmt}:{c}", f"[{fmt}] {d}; all failing clauses: {sorted({x for x, _ in fails})}; features: {sorted(model.features(doc))}",
+    return [Violation(c, f"C02:{fmt}:{c}", f"[{fmt}] {d}; all failing clauses: {sorted({x for x, _ in fails})}; features: {sorted(model.features(doc) | _opt_feats(render_kw))}",
                       {"kind": "model", "format": fmt, "model": doc, "render_kw": render_kw or {}})]
 
 
-FORMATS = sorted(PROFILES)
+import os  # noqa: E402
+
+FORMATS = [f for f in sorted(PROFILES) if not os.environ.get("VF_FORMATS") or f in os.environ["VF_FORMATS"].split(",")]
 
 
 def shard(ctx: Ctx, fmt: str):
     part = Partial()
     prof = PROFILES[fmt]
     n = ctx.n(400, 6000)
-    hyp_search(ctx, f"c02-{fmt}", model.documents(prof), lambda d: evaluate(ctx, d, fmt, part), n, part)
+    from hypothesis import strategies as st
+    optst = st.fixed_dictionaries({k: st.sampled_from(v) for k, v in prof.get("opts", {}).items()})
+    cases = st.tuples(model.documents(prof), optst).map(lambda t: {"doc": t[0], "opts": t[1]})
+
+    def ev(case):
+        return evaluate(ctx, case["doc"], fmt, part, {"opts": case["opts"]} if case.get("opts") else None)
+    hyp_search(ctx, f"c02-{fmt}", cases, ev, n, part)
     return part
 
 
